@@ -11,22 +11,30 @@ fn check_case(ctx: &Ctx, stream: &str, idx: u64, label: &str, cfg: &WCfg, entrie
         ctx.count("files_unbuildable_skipped", 1);
         return;
     };
-    let interval = cfg.eff_interval();
-    let df = match decoder::decode(&bytes, None) {
-        Ok(d) => d,
-        Err(_) => {
-            ctx.count("files_undecodable_skipped", 1);
-            return;
-        }
-    };
-    let b_eff = cfg.eff_block_size();
-    let levels = df.trailer.levels as usize;
     if cfg.block_size.map(|b| b < 1024).unwrap_or(false) {
         ctx.count("files_with_block_size_below_clamp", 1);
     }
+    let describe = J::obj().set("case", label).set("config", cfg.render()).set("n_entries", entries.len()).set("entries", gen::render_entries(entries, 4));
+    let multi = judge_file(ctx, stream, idx, describe.clone(), cfg.eff_block_size(), cfg.eff_interval(), &bytes);
+    ctx.count("files", 1);
+    ctx.eval(gen::case_hash(cfg, entries), multi);
+    ctx.sample(|| describe);
+}
+
+/// Applies the cut rule to every judged block of one finished file. Returns whether the file has
+/// >= 2 data blocks.
+fn judge_file(ctx: &Ctx, stream: &str, idx: u64, describe: J, b_eff: usize, interval: usize, bytes: &[u8]) -> bool {
+    let df = match decoder::decode(bytes, None) {
+        Ok(d) => d,
+        Err(_) => {
+            ctx.count("files_undecodable_skipped", 1);
+            return false;
+        }
+    };
+    let levels = df.trailer.levels as usize;
     let mut judged = 0u64;
     let mut deep_judged = 0u64;
-    let detail = |what: &str, obs: String| J::obj().set("case", label).set("config", cfg.render()).set("n_entries", entries.len()).set("entries", gen::render_entries(entries, 4)).set("effective_block_size", b_eff).set("what", what).set("observed", obs);
+    let detail = |what: &str, obs: String| describe.clone().set("effective_block_size", b_eff).set("what", what).set("observed", obs);
     // judged levels: data blocks (depth levels+1) and index depth >= 2
     let mut level_lists: Vec<(usize, &Vec<usize>)> = vec![(levels + 1, &df.data_blocks)];
     for d in 2..df.index_levels.len() {
@@ -74,14 +82,47 @@ fn check_case(ctx: &Ctx, stream: &str, idx: u64, label: &str, cfg: &WCfg, entrie
     if deep_judged > 0 {
         ctx.count("files_with_judged_deep_index_blocks", 1);
     }
-    ctx.count("files", 1);
-    ctx.eval(gen::case_hash(cfg, entries), df.data_blocks.len() >= 2);
-    ctx.sample(|| {
-        J::obj().set("case", label).set("config", cfg.render()).set("n_entries", entries.len()).set(
-            "data_block_sizes",
-            J::Arr(df.data_blocks.iter().take(8).map(|&bi| J::Int(df.blocks[bi].size() as i128)).collect()),
-        )
+    df.data_blocks.len() >= 2
+}
+
+/// The chunk files a sorter writes (plain spills and merged chunks) obey the block size the
+/// sorter was configured with.
+fn sorter_chunks_case(ctx: &Ctx, idx: u64, rng: &mut Rng) {
+    use super::sorter_common::{gen_inserts_capped, gen_scfg};
+    use crate::io_mon::{MonChunkCreator, Split};
+    use crate::merge_mon::{MergeKind, MonMerge};
+    let mut scfg = gen_scfg(rng);
+    scfg.parallel = false;
+    scfg.budget = *rng.pick(&[4096usize, 16_384, 65_536]);
+    scfg.initial = if scfg.allow_realloc { Some(scfg.budget / 4) } else { None };
+    scfg.max_nb_chunks = *rng.pick(&[1usize, 2, 3, 25]);
+    scfg.block_size = Some(*rng.pick(&[0usize, 1024, 1024, 1500, 2048, 4096]));
+    scfg.interval = Some(*rng.pick(&[1usize, 3, 8]));
+    scfg.levels = Some(rng.range(0, 3) as u8);
+    let uni = *rng.pick(&[200usize, 5000]);
+    let volume = scfg.budget * rng.range(2, 10);
+    let plan = gen_inserts_capped(rng, 6000, uni, 60, false, None, volume);
+    let cc = MonChunkCreator::new(None, Split::Full, Split::Full, 0);
+    let r = crate::verdict::guarded(|| -> Result<Vec<Vec<u8>>, String> {
+        let mut sorter = scfg.build(MonMerge::with_plan(MergeKind::Last, None), cc);
+        for (k, v) in &plan.inserts {
+            sorter.insert(k, v).map_err(|e| e.to_string())?;
+        }
+        let cursors = sorter.into_reader_cursors().map_err(|e| e.to_string())?;
+        Ok(cursors.into_iter().map(|c| c.into_inner().data().to_vec()).collect())
     });
+    let Ok(Ok(chunks)) = r else {
+        ctx.count("sorter_runs_failed_skipped", 1);
+        return;
+    };
+    let b_eff = scfg.block_size.unwrap_or(8192).max(1024);
+    let mut multi = false;
+    for (ci, bytes) in chunks.iter().enumerate() {
+        let describe = J::obj().set("case", format!("sorter chunk file #{} of {}", ci, chunks.len())).set("sorter", scfg.render()).set("n_inserts", plan.inserts.len());
+        multi |= judge_file(ctx, "sorter-chunks", idx, describe, b_eff, scfg.interval.unwrap_or(8), bytes);
+        ctx.count("sorter_chunk_files_judged", 1);
+    }
+    ctx.eval(crate::prng::mix(&[crate::prng::hash_bytes(1, scfg.render().as_bytes()), plan.inserts.len() as u64, idx]), multi);
 }
 
 /// Entries whose sizes sit around the block size.
@@ -140,7 +181,10 @@ pub fn run(ctx: &Ctx) -> i32 {
         }
         check_case(ctx, "deep", idx, "deep", &cfg, &entries);
     });
+    let n = ctx.n(600, 10_000);
+    ctx.par("sorter-chunks", n, true, |idx, rng| sorter_chunks_case(ctx, idx, rng));
     if ctx.only.is_none() {
+        ctx.obligation("sorter chunk files judged", ctx.counter("sorter_chunk_files_judged") > 0);
         let files = ctx.counter("files").max(1);
         ctx.obligation("index blocks at depth >= 2 judged in >= 15% of files", ctx.counter("files_with_judged_deep_index_blocks") * 100 / files >= 15);
         ctx.obligation("block sizes on both sides of B", ctx.tag_count("block_size_vs_B") == 2);
@@ -148,7 +192,7 @@ pub fn run(ctx: &Ctx) -> i32 {
     }
     ctx.finish(
         "exploration",
-        "per generated file the independent decoder yields every block's depth, entries and uncompressed size; for each data block and each index block at depth >= 2: (1) its size recomputed without its final entry (payload' + 8*max(1,ceil((n-1)/interval)) + 4) must be < B, (2) unless it is the last block of its level its size must be >= B, with B = max(configured, 1024). Depth-0/1 index blocks are measured, never judged. Workloads: structured list, random files, entry sizes around B (B-40..B+40, B/2, B/3, 1-3xB), deep files with long keys. non-trivial = file with >= 2 data blocks; distinct = distinct (config, entries) hash",
+        "per generated file the independent decoder yields every block's depth, entries and uncompressed size; for each data block and each index block at depth >= 2: (1) its size recomputed without its final entry (payload' + 8*max(1,ceil((n-1)/interval)) + 4) must be < B, (2) unless it is the last block of its level its size must be >= B, with B = max(configured, 1024). Depth-0/1 index blocks are measured, never judged. Workloads: structured list, random files, entry sizes around B (B-40..B+40, B/2, B/3, 1-3xB), deep files with long keys, and the chunk files written by sorters (plain spills and merged chunks, read through into_reader_cursors) judged against the sorter's configured block size. non-trivial = file with >= 2 data blocks; distinct = distinct (config, entries) hash",
         &["the offsets-table size of a block is derived from the configured interval", "files are produced by the real writer and must be decodable (C09 checks that separately)"],
         J::obj(),
     )
